@@ -495,6 +495,16 @@ func (r *Run) schedule(main *G) {
 		if cur.state != GRunnable {
 			rs := r.runnable()
 			if len(rs) == 0 {
+				// nobody can run: a goroutine waiting in verifrt.Settle continues
+				for _, g := range r.gs {
+					if g.state == GBlocked && g.waitObj == settleObj {
+						g.state = GRunnable
+						rs = append(rs, g)
+						break
+					}
+				}
+			}
+			if len(rs) == 0 {
 				return // all done or deadlock/leak: classified by caller
 			}
 			if main.state == GDone && !r.drainAfterMain {
